@@ -76,6 +76,7 @@ type peer struct {
 	mu   sync.Mutex
 	v1   map[string][]ovsdb.TableUpdates  // by cookie
 	v2   map[string][]ovsdb.TableUpdates2 // by cookie (update2 and update3)
+	ids  map[string][]string              // by cookie: the transaction ids of the update3 notifications, in order
 	errs []string
 }
 
@@ -84,7 +85,7 @@ func (l *srvLab) dial() (*peer, error) {
 	if err != nil {
 		return nil, err
 	}
-	p := &peer{v1: map[string][]ovsdb.TableUpdates{}, v2: map[string][]ovsdb.TableUpdates2{}}
+	p := &peer{v1: map[string][]ovsdb.TableUpdates{}, v2: map[string][]ovsdb.TableUpdates2{}, ids: map[string][]string{}}
 	p.c = rpc2.NewClientWithCodec(&harnessCodec{Codec: jsonrpc.NewJSONCodec(conn)})
 	p.c.SetBlocking(true)
 	p.c.Handle("echo", func(_ *rpc2.Client, args []interface{}, reply *[]interface{}) error {
@@ -113,6 +114,11 @@ func (l *srvLab) dial() (*peer, error) {
 			}
 			p.mu.Lock()
 			p.v2[string(params[0])] = append(p.v2[string(params[0])], tu)
+			if n == 3 {
+				var id string
+				_ = json.Unmarshal(params[1], &id)
+				p.ids[string(params[0])] = append(p.ids[string(params[0])], id)
+			}
 			p.mu.Unlock()
 			return nil
 		}
